@@ -261,8 +261,10 @@ func TestVerif_C09(t *testing.T) {
 			fs2 := refs.New()
 			fs2.PlantFile("/f", []byte("x"), 0644, 0, 0)
 			o := ExportOptions{AttrCacheTimeout: 1}
+			// the program's own slice: it is handed to the server and reused by the program afterwards
+			given := append([]string(nil), l...)
 			if via == "New" {
-				o.AllowedIPs = append([]string(nil), l...)
+				o.AllowedIPs = given
 			}
 			s2, err := vfNewSrv(fs2, o)
 			if err != nil {
@@ -273,17 +275,22 @@ func TestVerif_C09(t *testing.T) {
 			switch via {
 			case "UpdateExportOptions":
 				eo := s2.nfs.GetExportOptions()
-				eo.AllowedIPs = append([]string(nil), l...)
+				eo.AllowedIPs = given
 				cerr = s2.nfs.UpdateExportOptions(eo)
 			case "UpdatePolicyOptions":
 				q := *s2.nfs.policy.Load()
-				q.AllowedIPs = append([]string(nil), l...)
+				q.AllowedIPs = given
 				cerr = s2.nfs.UpdatePolicyOptions(q)
 			}
 			if cerr != nil {
 				rec.Distinct("cfg|" + via + "|refused")
 				s2.Close()
 				continue
+			}
+			// the configuration is in force; the program now reuses its slice for something else (a
+			// template for another, public export): the list configured here is the one it WROTE
+			for i := range given {
+				given[i] = []string{"0.0.0.0/0", "::/0"}[i%2]
 			}
 			c2 := s2.client()
 			for _, cl := range cfgClients {
